@@ -43,14 +43,172 @@ RULE = ("stdlib: seeded random + boundary byte strings through base64/html/urlli
         "synthetic maps (missing descriptor / service keys, several descriptors), malformed artifacts.  non-trivial = "
         "distinct (sub-check, character classes present in RelayState/destination/message, type, outcome)")
 def regenerate_tables(ctx):
-    """Translator: pack.add_query as it reads NOW -> coq/gen/C14Src.v; C14/Source.v proves it equal to the model."""
-    from harness import py2coq
-    return py2coq.regenerate(os.path.join(common.GEN, "C14Src.v"), [
+    """Translators.  v1: pack.add_query as it reads NOW -> coq/gen/C14Src.v (C14/Source.v proves it equal to the
+    model).  v2: nine functions of the anchored code -> coq/gen/C14Src2.v (C14/Source2.v: one theorem each)."""
+    from harness import py2coq, py2coq2
+    info = py2coq.regenerate(os.path.join(common.GEN, "C14Src.v"), [
         (os.path.join(env.SRC, "saml2", "pack.py"), "add_query", {"name": "src_add_query", "params": ["location", "query"]})])
+    info2 = py2coq2.regenerate(os.path.join(common.GEN, "C14Src2.v"), src2_items())
+    out = dict(info)
+    out["obligations"] = info.get("obligations", 0) + info2["obligations"]
+    out["discharged"] = info.get("discharged", 0) + info2["discharged"]
+    out["untranslatable"] = list(info.get("untranslatable", [])) + list(info2["untranslatable"])
+    out["translated"] = list(info.get("translated", [])) + list(info2["translated"])
+    out["changed"] = bool(info.get("changed")) or bool(info2["changed"])
+    return out
+
+
+# ---------------------------------------------------------------------------- translator v2: specs
+def module_const(path, name):
+    """Value of the module-level assignment NAME = <literal> in the CURRENT source text."""
+    import ast
+    from harness.py2coq2 import Untranslatable
+
+    with open(path) as f:
+        tree = ast.parse(f.read())
+    for n in tree.body:
+        if isinstance(n, ast.Assign) and len(n.targets) == 1 and isinstance(n.targets[0], ast.Name) and n.targets[0].id == name:
+            try:
+                return ast.literal_eval(n.value)
+            except ValueError:
+                raise Untranslatable("module constant %s of %s is not a literal" % (name, path))
+    raise Untranslatable("module constant %s not found in %s" % (name, path))
+
+
+def const_term(v):
+    """Python literal (str, bytes, list/tuple of these) -> pyval term; bytes are the str of the same bytes."""
+    from harness.py2coq2 import Untranslatable, cstr
+
+    if isinstance(v, str):
+        return "(PStr %s)" % cstr(v)
+    if isinstance(v, bytes):
+        if all(0x20 <= c <= 0x7E for c in v):
+            return "(PStr %s)" % cstr(v.decode("ascii"))
+        return "(PStr (sb [%s]%%N))" % ";".join(str(c) for c in v)
+    if isinstance(v, (list, tuple)):
+        return "(PList [%s])" % "; ".join(const_term(x) for x in v)
+    raise Untranslatable("constant %r" % (v,))
+
+
+def template_call(path, name):
+    """spec['calls'] entry for NAME.format(k=v, ...), NAME a module-level str constant: the template is read from the
+    current source text and becomes the f-string it denotes (named fields only, no specs / conversions)."""
+    import string
+    from harness.py2coq2 import Untranslatable, cstr
+
+    def build(args, kw):
+        if args:
+            raise Untranslatable("positional arguments of %s.format" % name)
+        tpl = module_const(path, name)
+        if not isinstance(tpl, str):
+            raise Untranslatable("%s is not a str constant" % name)
+        parts = []
+        for lit, field, fspec, conv in string.Formatter().parse(tpl):
+            if lit:
+                parts.append("PStr %s" % cstr(lit))
+            if field is None:
+                continue
+            if fspec or conv or field not in kw:
+                raise Untranslatable("field %r of %s" % (field, name))
+            parts.append("p2_str %s" % kw[field])
+        return "(p2_fconcat [%s])" % "; ".join(parts)
+    return build
+
+
+def consts(path, names):
+    """{NAME: pyval term} for module-level literals; a constant that cannot be read is left out, so the function
+    that mentions it becomes untranslatable (poisoned definition: its theorem no longer checks)."""
+    from harness.py2coq2 import Untranslatable
+
+    out = {}
+    for n in names:
+        try:
+            out[n] = const_term(module_const(path, n))
+        except (Untranslatable, OSError, SyntaxError):
+            pass
+    return out
+
+
+def src2_items():
+    """[(path, qualname, spec)] for harness.py2coq2.  External calls are extra parameters of the definitions
+    (Section variables with hypotheses in C14/Source2.v); module constants are read from the source text."""
+    S = lambda *p: os.path.join(env.SRC, "saml2", *p)
+    pack, ent, hb, su = S("pack.py"), S("entity.py"), S("httpbase.py"), S("s_utils.py")
+    F1, F2 = "pyval -> pyval", "pyval -> pyval -> pyval"
+    g_bind = consts(S("__init__.py"), ["BINDING_HTTP_REDIRECT", "BINDING_HTTP_POST", "BINDING_SOAP", "BINDING_URI",
+                                       "BINDING_HTTP_ARTIFACT"])
+    g_order = consts(S("sigver.py"), ["REQ_ORDER", "RESP_ORDER"])
+    g_art = consts(ent, ["ARTIFACT_TYPECODE"])
+    urlenc = lambda a: "(urlencode %s)" % a[0]
+    addq = lambda a: "(src2_add_query %s %s)" % (a[0], a[1])
+    b64d = lambda a: "(b64decode %s)" % a[0]
+    dbi = lambda a: "(src2_decode_base64_and_inflate b64decode zlib_decompress %s)" % a[0]
+    esc = lambda a: "(src2_html_escape html_escape %s)" % a[0]
+    return [
+        (pack, "add_query", {"name": "src2_add_query", "params": ["location", "query"]}),
+        (pack, "_html_escape", {
+            "name": "src2_html_escape", "params": ["payload"], "extra_params": [("html_escape", F2)],
+            "calls": {"html.escape": lambda a, kw: "(html_escape %s %s)" % (a[0], kw.get("quote", "PErr"))}}),
+        (su, "decode_base64_and_inflate", {
+            "name": "src2_decode_base64_and_inflate", "params": ["string"],
+            "extra_params": [("b64decode", F1), ("zlib_decompress", F2)],
+            "calls": {"base64.b64decode": b64d, "zlib.decompress": lambda a: "(zlib_decompress %s %s)" % (a[0], a[1])}}),
+        (pack, "http_form_post_message", {
+            "name": "src2_http_form_post_message", "params": ["message", "location", "relay_state", "typ", "kwargs"],
+            "extra_params": [("html_escape", F2), ("b64encode", F1), ("str_encode", F2), ("bytes_decode", F2)],
+            "classes": {"bytes": ["bytes"]},
+            "calls": {"_html_escape": esc, "base64.b64encode": lambda a: "(b64encode %s)" % a[0],
+                      "message.encode": lambda a: "(str_encode v_message %s)" % a[0],
+                      "_msg.decode": lambda a: "(bytes_decode v__msg %s)" % a[0],
+                      "HTML_INPUT_ELEMENT_SPEC.format": template_call(pack, "HTML_INPUT_ELEMENT_SPEC"),
+                      "HTML_FORM_SPEC.format": template_call(pack, "HTML_FORM_SPEC")}}),
+        (pack, "http_redirect_message", {
+            "name": "src2_http_redirect_message",
+            "params": ["message", "location", "relay_state", "typ", "sigalg", "sign", "backend"],
+            "extra_params": [("urlencode", F1), ("deflate_b64", F1), ("sig_allowed_alg", "pyval"),
+                             ("ext", "string -> list pyval -> pyval")],
+            "globals": dict(g_order, SIG_ALLOWED_ALG="sig_allowed_alg"),
+            "calls": {"urlencode": urlenc, "add_query": addq,
+                      "deflate_and_base64_encode": lambda a: "(deflate_b64 %s)" % a[0],
+                      # the signing branch (property C15): opaque external calls
+                      "backend.get_signer": lambda a: '(ext "get_signer" [v_backend; %s])' % a[0],
+                      "string.encode": lambda a: '(ext "encode" [v_string; %s])' % a[0],
+                      "signer.sign": lambda a: '(ext "sign" [v_signer; %s])' % a[0],
+                      "base64.b64encode": lambda a: '(ext "b64encode" [%s])' % a[0]}}),
+        (hb, "HTTPBase.use_http_artifact", {
+            "name": "src2_use_http_artifact", "params": ["message", "destination", "relay_state"],
+            "extra_params": [("urlencode", F1)], "calls": {"urlencode": urlenc, "add_query": addq}}),
+        (hb, "HTTPBase.use_http_uri", {
+            "name": "src2_use_http_uri", "params": ["message", "typ", "destination", "relay_state"],
+            "extra_params": [("urlencode", F1)], "calls": {"urlencode": urlenc, "add_query": addq}}),
+        (ent, "Entity.unravel", {
+            "name": "src2_unravel", "params": ["txt", "binding", "msgtype"],
+            "extra_params": [("b64decode", F1), ("zlib_decompress", F2), ("soap_mod", "pyval"), ("call_fn", F2)],
+            "globals": dict(g_bind, soap="soap_mod"),
+            "exc_parents": {"UnknownBinding": ["SAMLError", "Exception"], "SAMLError": ["Exception"],
+                            "UnravelError": ["Exception"], "error": ["Exception"]},
+            "calls": {"decode_base64_and_inflate": dbi, "base64.b64decode": b64d,
+                      "func": lambda a: "(call_fn v_func %s)" % a[0]}}),
+        (ent, "Entity.artifact2destination", {
+            "name": "src2_artifact2destination", "params": ["self", "artifact", "descriptor"],
+            "extra_params": [("b64decode", F1), ("int_base", F2)], "globals": g_art, "lenient_raise_args": True,
+            "calls": {"base64.b64decode": b64d, "int": lambda a: "(int_base %s %s)" % (a[0], a[1] if len(a) > 1 else "PErr")}}),
+    ]
 
 
 TRUSTED = ["source-to-Gallina translator harness/py2coq.py + coq/theories/Base/Py.v (pack.add_query is re-translated from the source "
            "text on every run; c14_source_add_query proves it equal to the model)",
+           "source-to-Gallina translator v2 harness/py2coq2.py + coq/theories/Base/Py2.v (its trusted base: notes/translator_v2.md) and "
+           "the specs in harness/c14.py:src2_items (which external calls become parameters; module constants BINDING_*, REQ_ORDER, "
+           "RESP_ORDER, ARTIFACT_TYPECODE and the templates HTML_FORM_SPEC / HTML_INPUT_ELEMENT_SPEC are read from the source text).  "
+           "Re-translated on every run into coq/gen/C14Src2.v and proved equal to the model for all inputs (c14_source2_*): "
+           "pack.add_query, pack._html_escape, pack.http_form_post_message, pack.http_redirect_message (theorem: sign=None/False), "
+           "HTTPBase.use_http_artifact, HTTPBase.use_http_uri (theorem: request branch and unknown typ), "
+           "s_utils.decode_base64_and_inflate, Entity.unravel, Entity.artifact2destination (theorem: artifacts whose decoded bytes "
+           "are < 128 - the embedding refuses to slice other strings; sha1 source ids are covered by the correspondence cases only)",
+           "hypotheses of the c14_source2 theorems about external calls: html.escape(s, quote=True), base64.b64encode/b64decode, "
+           "zlib.decompress(d, -15), urllib.parse.urlencode, str.encode('utf-8') = identity on the byte representation, "
+           "bytes.decode('ascii'), getattr(soap, ...) + call, int(b, 16) on at most two bytes",
            "zlib (observed per case, abstract in the proofs)", "hashlib.sha1 (observed per case, abstract in the proofs)",
            "xml.etree / defusedxml parser and serialiser on the SOAP receiver side (compared by canonical tree digest)",
            "html.parser.HTMLParser and urllib.parse as the receiver's readers", "renderer harness/render.py",
@@ -673,6 +831,11 @@ def _exc(e):
     return type(e).__name__
 
 
+# what observe() reports as the URL when the artifact / URI binding raised instead of returning one (every real URL
+# of these bindings contains "SAMLart=" or "ID=")
+NO_URL = "!exception:"
+
+
 def inflate_obs(d):
     try:
         return zlib.decompress(d, -15).hex()
@@ -815,17 +978,23 @@ def observe(case):
             received, zt = unravel_obs(vals[-1] if vals else "", REDIRECT)
         return {"url": url, "exc": None, "received": received, "zt": zt, "dt": dt, "params": [list(p) for p in params]}
     if k == "arturl":
-        info = ent("idp" if case["response"] else "sp").apply_binding(ARTIFACT, case["art"], case["dest"], case["rs"],
-                                                                      response=case["response"], sign=False)
-        return {"url": info["url"]}
+        try:
+            info = ent("idp" if case["response"] else "sp").apply_binding(ARTIFACT, case["art"], case["dest"], case["rs"],
+                                                                          response=case["response"], sign=False)
+            return {"url": info["url"]}
+        except Exception as e:      # no URL at all: reported as a text that is no URL (the spec fails on it)
+            return {"url": NO_URL + _exc(e)}
     if k == "uriurl":
-        if case["via"] == "static":
-            from saml2.httpbase import HTTPBase
+        try:
+            if case["via"] == "static":
+                from saml2.httpbase import HTTPBase
 
-            info = HTTPBase.use_http_uri(case["id"], "SAMLRequest", case["dest"], case["rs"])
-        else:
-            info = ent(case["via"]).apply_binding(URI, case["id"], case["dest"], case["rs"], response=False, sign=False)
-        return {"url": info["url"]}
+                info = HTTPBase.use_http_uri(case["id"], "SAMLRequest", case["dest"], case["rs"])
+            else:
+                info = ent(case["via"]).apply_binding(URI, case["id"], case["dest"], case["rs"], response=False, sign=False)
+            return {"url": info["url"]}
+        except Exception as e:
+            return {"url": NO_URL + _exc(e)}
     if k == "soap":
         from saml2 import soap as s2soap
 
